@@ -57,6 +57,14 @@ def setup_worker(ctx):
     mon.step_budget = 0          # the library's own deadline is under test: no foreign budget
     mon.rule_budget = 0
     st = ctx["c13"] = {"trace": None}
+    # the attach points this check cannot do without; when a refactoring removed or renamed one, every case is inconclusive
+    # (with the name spelled out) instead of judging the library by a clock it does not read
+    gone = [n for n, ok in (("ctparse.timers.perf_counter", hasattr(L.timers, "perf_counter")), ("ctparse.ctparse.timeout_", hasattr(L.m, "timeout_")),
+                            ("PartialParse._filter_rules", hasattr(L.pp.PartialParse, "_filter_rules")), ("PartialParse.apply_rule", hasattr(L.pp.PartialParse, "apply_rule")))
+            if not ok]
+    if gone:
+        st["broken"] = "attach point(s) %s no longer exist: the virtual clock / the work counters cannot be attached" % gone
+        return
     # clock
     L.timers.perf_counter = lambda: (st["trace"].read() if st["trace"] is not None else 0.0)
     # deadline checks (on top of the monitor's wrapper)
@@ -234,6 +242,8 @@ def check_trace(L, tr, nmatches):
 def run_case(case, ctx):
     L, mon = ctx["L"], ctx["mon"]
     text = case["t"]
+    if ctx["c13"].get("broken"):
+        return {"st": "inconc", "msg": ctx["c13"]["broken"]}
     ctx["c13"]["opts"] = dict(case.get("o") or {})
     key0 = "C13|" + text + ("|cold%s" % case.get("tag") if case["mode"] == "cold" else "") + ("|%s" % sorted(case["o"].items()) if case.get("o") else "")
     if case["mode"] == "cold":
@@ -249,6 +259,8 @@ def run_case(case, ctx):
         probs.append(("timeout0-expired", "timeout=0 raised a deadline"))
     # a reference with a huge deadline gives the number of clock reads of the run
     trN, fullN, errN, _ = _run(ctx, text, 10 ** 9)
+    if not any(e[0] == "read" for e in trN.ev):
+        return {"st": "inconc", "msg": "the library did not read the virtual clock (ctparse.timers.perf_counter) once in a run with a deadline: it takes its time from somewhere else"}
     if errN or fullN != full:
         probs.append(("huge-timeout-differs", "timeout=1e9 gives different yields than timeout=0 (%s)" % errN))
     # timeout=0 means no limit for the single-result call as well: it returns the best of the unlimited stream
